@@ -94,6 +94,9 @@ class ContinueSig(Signal):
   pass
 
 
+INPLACE_KINDS = ('series', 'panel', 'rowarray', 'sharearray')
+
+
 class MergeAbort(Signal):
   """A branch that was being merged needs a real path split."""
 
@@ -887,6 +890,15 @@ class Exec:
       return self.lib_call(name, [a, b], {}, node)
     if isinstance(a, VSeq) and isinstance(b, VSeq) and isinstance(op, ast.Add):
       return self.lib_call('list.concat', [a, b], {}, node)
+    if a.kind == 'series' and is_numeric(b) and isinstance(
+        op, (ast.Div, ast.Mult, ast.Add, ast.Sub)):
+      # element-wise arithmetic of a Series with a scalar: same labels
+      c = num_term(b)
+      c = z3.ToReal(c) if c.sort() == z3.IntSort() else c
+      old = a.val
+      f = {ast.Div: lambda v: v / c, ast.Mult: lambda v: v * c,
+           ast.Add: lambda v: v + c, ast.Sub: lambda v: v - c}[type(op)]
+      return type(a)(a.labels, lambda g: f(old(g)))
     self.unsupported(node, '%s %s %s' % (a.kind, type(op).__name__, b.kind))
 
   def arith(self, op, a, b, node):
@@ -1580,6 +1592,21 @@ class Exec:
       r = self.lib_call('list.concat', [cur, val], {}, node)
     else:
       r = self.binop(node.op, cur, val, node)
+    if getattr(cur, 'kind', None) in INPLACE_KINDS and cur is not r:
+      # pandas/NumPy objects are updated IN PLACE by augmented assignment:
+      # every field and variable that refers to the same object sees the new
+      # contents (a write to each such field, checked against the frame)
+      for oid, rec in list(self.ctx.objects.items()):
+        for f, v in list(rec.fields.items()):
+          if v is cur or (isinstance(v, VOpt) and v.val is cur):
+            nv = r if v is cur else VOpt(v.none, r)
+            self.ctx.set_field(VObj(oid, rec.cls), f, nv)
+      e = env
+      while e is not None:
+        for k, v in list(e.vars.items()):
+          if v is cur:
+            e.vars[k] = r
+        e = e.parent
     self.assign_target(node.target, r, env, node)
 
   def assign_target(self, t, v, env, node):
